@@ -35,7 +35,7 @@ contract(B + 'calculate_likelihood_and_derivatives', ['C15', 'C02', 'C04'],
          raises={'BiogemeError': f'batch is not None or (batch is None and len(x) == self.id_manager.number_of_free_betas and scaled and {NSS} == 0)',
                  'ValueError': 'batch is None and len(x) != self.id_manager.number_of_free_betas'},
          modifies=['*.individualMap', '*.data', '*.fullIndividualMap', 'self.bestIteration'],
-         check_safe=False, check_frame=False,
+         # round 3 (m1): check_safe=False and check_frame=False removed - implicit exceptions and the frame are obligations again
          ensures={
              'function': f"result.data.function == ite(scaled, {F} / {NSS}, {F})",
              'gradient': f"same(result.data.gradient, ite(scaled, app('numpy.asarray', {G}) / {NSS}, app('numpy.asarray', {G})))",
